@@ -9,6 +9,9 @@
 (*   goodpay     well-formed request with payload (Twrite)-> its R reply   *)
 (*   trailing    well-formed body followed by extra bytes inside the frame *)
 (*               -> served (the decoder takes what it needs)               *)
+(*   rejver      a Tversion the server turns down (another dialect, with a *)
+(*               huge or a tiny msize) -> Rversion("unknown", 0); the size *)
+(*               bound negotiated before stays in force for what follows   *)
 (*   unknown     unregistered type byte, any body -> Rlerror, frame's tag  *)
 (*   shortfixed  payload-carrying type whose body is shorter than its      *)
 (*               fixed part -> Rlerror (no tag known to the decoder)       *)
@@ -30,7 +33,7 @@ EXTENDS Integers, Sequences, FiniteSets, TLC
 
 CONSTANTS MaxLen     \* longest stream
 
-Served   == {"good", "goodpay", "trailing"}
+Served   == {"good", "goodpay", "trailing", "rejver"}
 Rejected == {"unknown", "shortfixed", "empty", "overcount", "overstring", "paymismatch", "truncated"}
 Fatal    == {"size3", "sizebig", "sizehuge", "cuthdr", "cutbody"}
 Kinds == Served \cup Rejected \cup Fatal
